@@ -53,6 +53,11 @@ func main() {
 			usage()
 		}
 		os.Exit(explain(os.Args[2]))
+	case "debug":
+		if len(os.Args) < 3 {
+			usage()
+		}
+		os.Exit(runDebug(os.Args[2]))
 	case "list":
 		var ids []string
 		for id := range registry {
